@@ -160,6 +160,18 @@ CLAIMED = {
         "Trusted: Coq kernel; IEEE rounding outside the dyadic grid not modelled; 'calibration never alters the raw values' is true "
         "of the model by construction and only exercised.",
         "DESIGN.md section 5 C15", TECH),
+    "C10": (
+        "Coq theorems over the value-typing model (get_dtype with bool before int, create_property, values, extend_values): after "
+        "ANY history every stored value has the type the property was created with; an accepted assignment reads back exactly, an "
+        "accepted extend is old ++ new; a list with an element of another type is refused with a type error wherever that "
+        "element stands; refused stores/appends/lookups/deletions leave every property unchanged; bool is not int; dictionary "
+        "view: get-after-set, membership <=> one of the iterated keys, deletion removes that property only. Tie: histories over "
+        "the four types incl. numpy scalars, extremes, NaN, non-ASCII text, unsupported objects, beyond-int64 integers, numpy "
+        "arrays, None/[] clears, dict operations and reopen, with every property's type and values and the dict view compared "
+        "after every step; trace predicates on the implementation (refused => unchanged, stored => read back).",
+        "Trusted: Coq kernel; numpy conversion of same-typed values exact (exercised). Known finding: the scalar empty string "
+        "clears the values.",
+        "DESIGN.md section 5 C10", TECH),
 }
 
 PENDING_REASON = ("check not built yet in this revision (work in progress: the property is meant to be decided by Coq "
